@@ -353,6 +353,7 @@ class Frame:
         self.facts = facts
         self.outer = outer
         self.yields: Optional[List[Any]] = None
+        self.early: List[Any] = []      # values returned on a branch whose condition was not decided
 
     def lookup(self, name: str):
         fr: Optional[Frame] = self
@@ -427,6 +428,10 @@ class Interp:
                 ret = UNK
                 if is_gen:
                     pass
+            if frame.early and not is_gen:
+                alts = [v for v in frame.early if not _same(v, ret)]
+                if alts:
+                    ret = Join(alts + [ret])
             if is_gen:
                 ys = frame.yields
                 if not ys:
@@ -505,6 +510,7 @@ class Interp:
         for arm, extra in ((st.body, pos_f), (st.orelse, neg_f)):
             sub = Frame(fr.fi, fr.self_val, dict(fr.locals), fr.facts + extra, fr.outer)
             sub.yields = fr.yields
+            sub.early = fr.early
             try:
                 self.exec_block(arm, sub)
                 outcomes.append(("next", sub, None))
@@ -534,8 +540,10 @@ class Interp:
                 fr.locals.clear()
                 fr.locals.update(merged)
                 fr.facts[:] = [f for f in a.facts if f in b.facts]
-            # an arm that returned contributes its value to nothing further: the rules only
-            # need provider records, which are global
+            # an arm that returned: its value is one of the values the function can return
+            for o in others:
+                if o[0] == "return":
+                    fr.early.append(o[2])
             return
         # no arm falls through
         kinds = {o[0] for o in others}
